@@ -18,7 +18,7 @@ import sys
 VERIF = os.path.dirname(os.path.dirname(os.path.abspath(__file__)))
 REPO = "/repo"
 PKGDIR = {"risor": ".", "vm": "vm", "repl": "cmd/risor/repl", "os": "os", "compiler": "compiler", "parser": "parser",
-          "lexer": "lexer", "object": "object", "errz": "errz", "ast": "ast", "builtins": "builtins", "importer": "importer", "localfs": "os/localfs", "filepath": "modules/filepath", "strings": "modules/strings", "bytes": "modules/bytes", "json": "modules/json", "regexp": "modules/regexp", "fmt": "modules/fmt", "math": "modules/math", "strconv": "modules/strconv"}
+          "lexer": "lexer", "object": "object", "errz": "errz", "ast": "ast", "builtins": "builtins", "importer": "importer", "localfs": "os/localfs", "filepath": "modules/filepath", "strings": "modules/strings", "bytes": "modules/bytes", "json": "modules/json", "regexp": "modules/regexp", "fmt": "modules/fmt", "math": "modules/math", "strconv": "modules/strconv", "compiler_test": "compiler"}
 
 
 def sh(cmd, cwd, timeout=1800):
